@@ -7,10 +7,48 @@ from render_lib import *
 
 NAME = lambda i: "t%d_html" % i
 
+BATCHES = []     # every batch handed to the harness: [(name, source, input line, implementation's answer)], in order
 def compile_pairs(srcs_named):
     """[(name, src bytes)] -> (impl lines, model lines)"""
     lines = ["%s %s" % (hexs(n.encode()), hexs(s)) for n, s in srcs_named]
-    return run_impl("compile", lines), run_model("compile", lines)
+    impl = run_impl("compile", lines)
+    BATCHES.append([(n, bytes(s), l, a) for (n, s), l, a in zip(srcs_named, lines, impl)])
+    return impl, run_model("compile", lines)
+
+def history_pass(named, impl, oracle_fail):
+    """every template of the batch once more, all in ONE process (the batch itself is spread over several): a template that gets another answer as the
+    n-th of a long-lived process than it got in a process that had compiled fewer before it depends on that history"""
+    lines = ["%s %s" % (hexs(n.encode()), hexs(s)) for n, s in named]
+    one = run_impl("compile", lines, shards=1, _retry=False, timeout=900)
+    for i, (a1, a) in enumerate(zip(one, impl)):
+        if a1 != a and a1 not in ("CRASH", "SKIPPED") and a not in ("CRASH", "SKIPPED"):
+            show = lambda o: (decode_outcome(o)[0], decode_outcome(o)[1].decode("utf8", "replace")[:2500])
+            oracle_fail.append((named[i][1], "what is generated for a template depends on what the same process compiled before it: as the %d-th template of one process it gets another result than in a process that had compiled fewer" % (i + 1),
+                                dict(in_the_long_lived_process=show(a1), in_the_batch=show(a), compiled_before_hex=[s.hex() for _, s in named[:i]],
+                                     replay="feed one line `hex(name) hex(source)` per template (those of compiled_before_hex first, names t0_html, t1_html, ...) to `%s compile`" % HARNESS)))
+            break
+
+def history_probe(src, a):
+    """`a` is what the harness answered for `src` inside a batch (one process compiles many templates one after the other) and it is not what
+    the model says.  Compile the template alone in a fresh process: when that answer differs from the batch's, what is generated depends on what
+    the process compiled before -- look for a short history that reproduces it.  Returns None (no dependence on history) or a dict."""
+    for batch in reversed(BATCHES):
+        idx = [i for i, (n, s0, l, o) in enumerate(batch) if s0 == src and o == a]
+        if idx: break
+    else: return None
+    i = idx[0]; line = batch[i][2]
+    alone = run_impl("compile", [line], shards=1)[0]
+    if alone == a: return None
+    n = len(batch); k = max(1, min(NPROC, (n + 49) // 50))
+    shard = batch[i % k:i:k]                       # what the same process had compiled before it
+    rej = [b for b in shard if not b[3].startswith("OK")]
+    cands = [[r] for r in reversed(rej[-30:])] + [[r] for r in reversed(shard[-10:])] + [rej, shard, [b for b in batch[:i] if not b[3].startswith("OK")], batch[:i]]
+    for hist in cands:
+        if not hist: continue
+        out = run_impl("compile", [h[2] for h in hist] + [line], shards=1, _retry=False)
+        if out and out[-1] != alone and out[-1] not in ("CRASH", "SKIPPED"):
+            return dict(alone=alone, after_history=out[-1], history=[h[1] for h in hist])
+    return dict(alone=alone, after_history=a, history=None)
 
 def decode_outcome(line):
     f = line.split(" ")
@@ -43,6 +81,7 @@ def suite(pid, tier, make_gen, n, uses=("super::wrap_html", "crate::P"), extra_f
         for p in t.get("perts", []): named.append((NAME(t["i"]), p))
     impl, model = compile_pairs(named)
     disagree = []; oracle_fail = []
+    history_pass(named, impl, oracle_fail)
     k = 0; hist = {}
     for t in T:
         nv = 1 + len(t.get("perts", []))
@@ -144,9 +183,23 @@ def conclude(chk, proof, info, disagree, oracle_fail, n_cases, stage="compile"):
                                 replay_cmd="echo '745f68746d6c %s' | %s compile | cut -c1-4000" % (hexs(src), HARNESS)))
     elif disagree:
         disagree.sort(key=lambda x: len(x[0]))
-        src, a, m = disagree[0]
-        da = decode_outcome(a); dm = decode_outcome(m)
-        chk.violation("correspondence parser/emitter model <-> implementation broken (no input violating the property found among %d cases)" % n_cases,
+        for src, a, m in disagree[:8]:
+            hp = history_probe(src, a) if isinstance(src, bytes) else None
+            if hp and hp["history"] is not None:
+                show = lambda o: (decode_outcome(o)[0], decode_outcome(o)[1].decode("utf8", "replace")[:2500])
+                chk.violation("what is generated for a template depends on what the same process compiled before it: compiled alone it gives what the model gives%s, after %d other template(s) it does not" % (
+                                  "" if hp["alone"] == m else " (or at least something else)", len(hp["history"])),
+                              dict(stage=stage, template=src.decode("utf8", "replace"), template_hex=src.hex(), compiled_before=[h.decode("utf8", "replace")[:600] for h in hp["history"][-12:]],
+                                   compiled_before_hex=[h.hex() for h in hp["history"]] if len(hp["history"]) <= 40 else "%d templates (the batch of this run up to this one)" % len(hp["history"]),
+                                   alone=show(hp["alone"]), after_history=show(hp["after_history"]), model=show(m),
+                                   replay_cmd="printf '%%s\\n' <one line `hex(name) hex(source)` per template, those compiled before first> | %s compile" % HARNESS))
+                break
+        if chk.violations:
+            pass
+        else:
+          src, a, m = disagree[0]
+          da = decode_outcome(a); dm = decode_outcome(m)
+          chk.violation("correspondence parser/emitter model <-> implementation broken (no input violating the property found among %d cases)" % n_cases,
                       dict(stage=stage, template=src.decode("utf8", "replace"), template_hex=src.hex(), impl=(da[0], da[1].decode("utf8", "replace")[:3000]), model=(dm[0], dm[1].decode("utf8", "replace")[:3000]),
                            broken="correspondence compile", theorems=[t["name"] for t in proof["theorems"]]), failing_input_found=False)
     if not proof["ok"] and not chk.violations:
@@ -257,8 +310,8 @@ def run_c14(pid, tier):
 
 # ---------------------------------------------------------------------------------------- C04
 CALLEE_MODS = {"wrap_html": [], "one_html": [], "zero_html": [], "three_html": [], "mid_html": [], "chain_html": [],
-               "inner_html": ["sub"], "leaf_html": ["sub", "deep"], "sib_html": ["sub"], "viaroot_html": ["sub"], "twice_html": []}
-CALLEE_BLOCKS = {"wrap_html": 2, "one_html": 1, "zero_html": 0, "three_html": 3, "mid_html": 1, "chain_html": 1, "inner_html": 1, "leaf_html": 1, "sib_html": 1, "viaroot_html": 1, "twice_html": 1}
+               "inner_html": ["sub"], "leaf_html": ["sub", "deep"], "sib_html": ["sub"], "viaroot_html": ["sub"], "twice_html": [], "midws_html": [], "midnl_html": []}
+CALLEE_BLOCKS = {"wrap_html": 2, "one_html": 1, "zero_html": 0, "three_html": 3, "mid_html": 1, "chain_html": 1, "inner_html": 1, "leaf_html": 1, "sib_html": 1, "viaroot_html": 1, "twice_html": 1, "midws_html": 1, "midnl_html": 1}
 def use_path(from_dir, name):
     d = [x for x in from_dir.split("/") if x]
     return "super::" * (len(d) + 1) + "".join(m + "::" for m in CALLEE_MODS[name]) + name
@@ -267,6 +320,9 @@ C04_FILES = {
     "t/zero.rs.html": "@(t: impl ToHtml)\n<@t>",
     "t/three.rs.html": "@(t: impl ToHtml, a: Content, b:Content, c : Content)\n@:c()@:a()@t@:b()",
     "t/mid.rs.html": "@use super::wrap_html;\n@(t: impl ToHtml, c: Content)\n<@:wrap_html(t, {@:c()}, {m})>",
+    # intermediates whose forwarded block stands between white space / on a line of its own: that white space is part of the block
+    "t/midws.rs.html": "@use super::wrap_html;\n@(t: impl ToHtml, c: Content)\n<@:wrap_html(t, { @:c() }, {\n  @* nothing else *@\n})>",
+    "t/midnl.rs.html": "@use super::wrap_html;\n@(t: impl ToHtml, c: Content)\n<@:wrap_html(t, {x}, {\n  @:c()\n})>",
     "t/sub/inner.rs.html": "@use super::super::one_html;\n@(t: impl ToHtml, c: Content)\n@{@@@:one_html(t, {i@:c()})@}",
     "t/sub/deep/leaf.rs.html": "@(t: impl ToHtml, c: Content)\n^@:c()@t$",
     "t/sub/sib.rs.html": "@use super::inner_html;\n@use super::deep::leaf_html;\n@(t: impl ToHtml, c: Content)\n@:inner_html(t, {s@:leaf_html(1, {@:c()})})",
@@ -283,13 +339,15 @@ def c04_bodies():
     zero = lambda v, t: "<" + v + ">"
     three = lambda v, t: t[2]() + t[0]() + v + t[1]()
     mid = lambda v, t: "<" + wrap(v, [t[0], lambda: "m"]) + ">"
+    midws = lambda v, t: "<" + wrap(v, [lambda: " " + t[0]() + " ", lambda: "\n  \n"]) + ">"
+    midnl = lambda v, t: "<" + wrap(v, [lambda: "x", lambda: "\n  " + t[0]() + "\n"]) + ">"
     inner = lambda v, t: "{@" + one(v, [lambda: "i" + t[0]()]) + "}"
     leaf = lambda v, t: "^" + t[0]() + v + "$"
     chain = lambda v, t: inner(v, [lambda: leaf("L", [t[0]])])
     sib = lambda v, t: inner(v, [lambda: "s" + leaf("1", [t[0]])])
     viaroot = lambda v, t: one(v, [lambda: "r" + t[0]()])
     twice = lambda v, t: one("1", [lambda: "[" + v + "]" + t[0]()]) + "(" + v + ")"
-    return {"viaroot_html": viaroot, "twice_html": twice, "wrap_html": wrap, "one_html": one, "zero_html": zero, "three_html": three, "mid_html": mid, "inner_html": inner, "leaf_html": leaf, "chain_html": chain, "sib_html": sib}
+    return {"midws_html": midws, "midnl_html": midnl, "viaroot_html": viaroot, "twice_html": twice, "wrap_html": wrap, "one_html": one, "zero_html": zero, "three_html": three, "mid_html": mid, "inner_html": inner, "leaf_html": leaf, "chain_html": chain, "sib_html": sib}
 def run_c04(pid, tier):
     n = 200 if tier == "quick" else 2000
     mk = lambda rng: Gen(rng, kinds=["text", "expr", "call", "call", "call", "if", "for", "cmt", "esc"], depth=3 if tier == "quick" else 4, max_items=3, callees=CALLEE_BLOCKS)
@@ -605,6 +663,7 @@ def run_c13(pid, tier):
     named = [("d%d_html" % i, c["canon"]) for i, c in enumerate(cases)]
     impl, model = compile_pairs(named)
     disagree = []; oracle_fail = []
+    history_pass(named, impl, oracle_fail)
     ok_cases = []
     for i, (c, a, m) in enumerate(zip(cases, impl, model)):
         chk.count(c["canon"], len(c["params"]) > 0)
@@ -665,6 +724,21 @@ def run_c13(pid, tier):
             oracle_fail.append((v2.encode(), "after the declaration was edited (same length of generated code) and the template rebuilt into the same OUT_DIR, the generated signature is not the declared one (expected %r)" % must, dict(code=got.decode("utf8", "replace")[:900], before=v1)))
         elif len(runs) > 1 and "model" in runs[1] and runs[1]["model"].get("fs", {}).get(b"templates/template_s_html.rs") not in (None, got):
             disagree.append((v2.encode(), "OK " + got.hex(), "OK " + runs[1]["model"]["fs"][b"templates/template_s_html.rs"].hex()))
+    # files that hold only @use lines / comments (a "shared imports" file, an unfinished template: rejected with a warning) between templates
+    # of the same directory: each template's header is its own -- the code it gets is the code it gets in a directory without those files
+    for rep in range(2 if tier == "quick" else 8):
+        names = rng.sample([a + b_ for a in "abcdkmqxyzABZ" for b_ in ["", "0", "7", "_x", "zz"]], 16)
+        goods = [('W', 't/%s.rs.html' % n_, "@use std::fmt::Debug as D%d;\n@(v: &str, n: u%d)\n<@v|@n>" % (k, [8, 16, 32][k % 3])) for k, n_ in enumerate(names[:8])]
+        bads = [('W', 't/%s.rs.html' % n_, ["@use crate::shared::Helper;\n@use std::collections::BTreeMap;\n", "@* imports for every page *@\n@use super::layout_html;\n", "@use a::b;", "@use x::{y, z};\n\n"][k % 4]) for k, n_ in enumerate(names[8:])]
+        mixed = goods + bads; rng.shuffle(mixed)
+        rm, rg = build_lib.run_scenarios([mixed + [('R', [('c', 't')])], goods + [('R', [('c', 't')])]])
+        chk.count(("imports-only siblings " + build_lib.scenario_line(mixed)[:1500]).encode(), True)
+        fm = build_lib.snap_files(([x for x in rm["runs"] if x["kind"] == "R"][0]["after"]) or {}); fg = build_lib.snap_files(([x for x in rg["runs"] if x["kind"] == "R"][0]["after"]) or {})
+        for n_ in names[:8]:
+            k_ = ("templates/template_%s_html.rs" % n_).encode()
+            if not fg.get(k_) or fm.get(k_) != fg.get(k_):
+                oracle_fail.append((build_lib.scenario_line(mixed + [('R', [('c', 't')])]).encode(), "the template %s.rs.html gets another header (use items / signature) in a directory that also holds files with nothing but @use lines than without them" % n_,
+                                    dict(with_them=(fm.get(k_) or b"<no file>").decode("utf8", "replace")[:700], without=(fg.get(k_) or b"<no file>").decode("utf8", "replace")[:700]))); break
     for c in cases[:3]: chk.sample(dict(template=c["canon"].decode(), call_args=c["args"]))
     chk.notes["disagreements_model_vs_impl"] = len(disagree); chk.notes["oracle_failures"] = len(oracle_fail)
     chk.cov["rule"] = ("parameter lists of 0..8 parameters over %d declared types (references, named and anonymous lifetimes, slices, tuples and generics with trailing commas, impl/dyn, user types Content / ContentType / Contents / MyContent / "
